@@ -58,8 +58,11 @@ func c20GrowOracle(c c20GrowCase) error {
 			if err != nil {
 				return fmt.Errorf("phase %d request %d: %v", pi, ri, err)
 			}
-			body, _ := io.ReadAll(resp.Body)
+			body, rerr := io.ReadAll(resp.Body)
 			resp.Body.Close()
+			if rerr != nil {
+				return fmt.Errorf("phase %d request %d: reading the response: %v", pi, ri, rerr)
+			}
 			// released goroutines may still be on their way out
 			upper := max(prev, ph.Population) + len(w.stable) + runtime.NumGoroutine() + 64
 			if err := c20CheckResponse(r, resp.StatusCode, resp.Header.Get("Content-Type"), body, len(w.stable)+ph.Population, upper); err != nil {
